@@ -67,6 +67,9 @@ pub fn verif_position(v: &Vec<f64>, point: f64) -> (r: Option<usize>)
             r is None ==> forall|i: int| 0 <= i < v@.len() ==> f64_real(#[trigger] v@[i]) != f64_real(point)
 { v.iter().position(|&x_val| x_val == point) }
 #[verifier::external_body] pub fn verif_err() -> String { String::new() }
+// rule R-cast: numeric `as` casts (Verus rejects them) under A-REAL: int -> f64 exact, f64 -> usize truncation towards zero of a non-negative value
+#[verifier::external_body] pub fn verif_usize_as_f64(x: usize) -> (r: f64) ensures f64_real(r) == x as real { x as f64 }
+#[verifier::external_body] pub fn verif_f64_as_usize(x: f64) -> (r: usize) ensures 0real <= f64_real(x) ==> r as real <= f64_real(x), f64_real(x) < 0real ==> r == 0 { x as usize }
 pub struct Interp1D { pub x: Vec<f64>, pub f_x: Vec<f64>, pub _phantom: PhantomData<()> }
 pub struct Interp2D { pub x: Vec<f64>, pub y: Vec<f64>, pub f_xy: Vec<Vec<f64>>, pub _phantom: PhantomData<()> }
 pub struct Interp3D { pub x: Vec<f64>, pub y: Vec<f64>, pub z: Vec<f64>, pub f_xyz: Vec<Vec<Vec<f64>>>, pub _phantom: PhantomData<()> }
@@ -109,6 +112,7 @@ def build(x):
     f = x.fn(I + "utils.rs", "fn find_nearest_index")
     f.rewrite(r"\.ok_or\(\"Could not get last grid value of arr, is arr empty\?\"\)\?", ".ok_or(verif_err())?", 1, 1, rule="R-format")
     x.note("R-format", "interpolation: error strings replaced by verif_err() (error text is not modelled)")
+    f.rewrite_casts({"f64": "verif_usize_as_f64", "usize": "verif_f64_as_usize"})
     f.name_return("r")
     f.add_spec("""    requires axis_ok(arr@), in_axis(arr@, f64_real(target)),
     ensures r matches Ok(i) ==> i + 1 < arr@.len() && rv(arr@, i as int) <= f64_real(target) <= rv(arr@, i as int + 1),
